@@ -191,7 +191,7 @@ func (e *Engine) harnessAPI(name string, args []Value, fn *ssa.Function) (Value,
 		return tt.And(args[0].(*Term), args[1].(*Term)), true
 	case "vImplies":
 		return tt.Implies(args[0].(*Term), args[1].(*Term)), true
-	case "vNote":
+	case "vNote", "vLogErr":
 		return nil, true
 	}
 	if r, ok := e.harnessAPI2(name, args, fn); ok {
